@@ -58,9 +58,14 @@ def rule_ly_note(ctx):
     repo = ctx.repo
     f = repo.mod(LY).func("from_Note")
     nci = repo.mod(NOTE).cls("Note")
+    # the accidentals of a name: any run of sharps, any run of flats, and the two-character names that mix them
+    # (LilyPond pitch names are letter + 'is'*k or letter + 'es'*k: what matters is the net alteration)
+    kinds = [("sharps", lambda: Run("R", [nd.SHARP])), ("flats", lambda: Run("R", [nd.FLAT])), ("#b", lambda: "#b"), ("b#", lambda: "b#")]
     for L in nd.LETTERS:
+      for klabel, mkrun in kinds:
         for standalone in (False, True):
-            run = nd.acc_run("R")
+            run = mkrun()
+            net = (Lin.of(run.count.get("#", 0)) - Lin.of(run.count.get("b", 0))) if isinstance(run, Run) else Lin.of(run.count("#") - run.count("b"))
             o = Sym("octave", 0, INF)
             note = AObj(nci, {"name": AbsStr([L, run]), "octave": Lin.of(o)}, name="note")
             try:
@@ -75,7 +80,6 @@ def rule_ly_note(ctx):
                     ok, why = False, "%s %r" % (p.kind, p.value)
                     break
                 atoms = list(p.interp.norm_str(v).atoms)
-                lits = "".join(a for a in atoms if isinstance(a, str))
                 if standalone:
                     if not (isinstance(atoms[0], str) and atoms[0].startswith("{") and isinstance(atoms[-1], str) and atoms[-1].rstrip().endswith("}")):
                         ok, why = False, "standalone form %r is not wrapped in braces" % (v,)
@@ -83,18 +87,48 @@ def rule_ly_note(ctx):
                     atoms[0] = atoms[0][1:].lstrip()
                     atoms[-1] = atoms[-1].rstrip()[:-1].rstrip()
                     atoms = [a for a in atoms if a != ""]
-                maps = [a for a in atoms if isinstance(a, MappedRun)]
-                reps = [a for a in atoms if isinstance(a, Rep)]
-                strs = [a for a in atoms if isinstance(a, str)]
-                if not atoms or atoms[0] != L.lower() and not (isinstance(atoms[0], str) and atoms[0][0] == L.lower()):
+                if not atoms or not (isinstance(atoms[0], str) and atoms[0][:1] == L.lower()):
                     ok, why = False, "the pitch name %r does not start with the lower-cased letter" % (v,)
                     break
-                if len(maps) != 1 or maps[0].run is not run or maps[0].mapping != {"#": "is", "b": "es"}:
-                    ok, why = False, "accidentals are rendered as %s, expected each '#' -> 'is' and each 'b' -> 'es' in order" % (
-                        [m.mapping for m in maps] or v,)
+                atoms[0] = atoms[0][1:]
+                # decode: 'is' / 'es' units, then octave marks
+                n_is, n_es, primes, commas, junk = Lin({}, 0), Lin({}, 0), Lin({}, 0), Lin({}, 0), None
+                for a in atoms:
+                    if isinstance(a, str):
+                        rest = a
+                        while rest:
+                            if rest.startswith("is"):
+                                n_is, rest = n_is + 1, rest[2:]
+                            elif rest.startswith("es"):
+                                n_es, rest = n_es + 1, rest[2:]
+                            elif rest[0] == "'":
+                                primes, rest = primes + 1, rest[1:]
+                            elif rest[0] == ",":
+                                commas, rest = commas + 1, rest[1:]
+                            else:
+                                junk, rest = a, ""
+                    elif isinstance(a, Rep) and a.lit in ("is", "es", "'", ","):
+                        if a.lit == "is":
+                            n_is = n_is + a.count
+                        elif a.lit == "es":
+                            n_es = n_es + a.count
+                        elif a.lit == "'":
+                            primes = primes + a.count
+                        else:
+                            commas = commas + a.count
+                    elif isinstance(a, MappedRun) and a.run is run and a.mapping == {"#": "is", "b": "es"}:
+                        n_is, n_es = n_is + Lin.of(run.count.get("#", 0)), n_es + Lin.of(run.count.get("b", 0))
+                    else:
+                        junk = a
+                if junk is not None:
+                    ok, why = False, "the text %r has a part %r that is neither 'is'/'es' units nor octave marks" % (v, junk)
                     break
-                primes = sum((r.count.scale(len(r.lit)) for r in reps if set(r.lit) == {"'"}), Lin({}, 0)) + sum(s.count("'") for s in strs)
-                commas = sum((r.count.scale(len(r.lit)) for r in reps if set(r.lit) == {","}), Lin({}, 0)) + sum(s.count(",") for s in strs)
+                if not nd.same(p.interp, n_is - n_es, net):
+                    ok, why = False, "the name %r carries %s 'is' and %s 'es' units, not the net alteration %s of the accidentals" % (v, n_is, n_es, net)
+                    break
+                if p.interp.lin_interval(n_is)[1] > 0 and p.interp.lin_interval(n_es)[1] > 0:
+                    ok, why = False, "the name %r mixes 'is' and 'es' units (%s and %s): that is not a LilyPond pitch name" % (v, n_is, n_es)
+                    break
                 want_p = (Lin.of(o) - 3) if lo >= 4 else Lin.of(0)
                 want_c = (Lin.of(3) - Lin.of(o)) if hi <= 2 else Lin.of(0)
                 if not (lo >= 4 or hi <= 2 or lo == hi == 3):
@@ -103,7 +137,7 @@ def rule_ly_note(ctx):
                 if not nd.same(p.interp, primes, want_p) or not nd.same(p.interp, commas, want_c):
                     ok, why = False, "octave %s..%s gets %s primes and %s commas, expected %s and %s" % (lo, hi, primes, commas, want_p, want_c)
                     break
-            ctx.check(ok, R, "from_Note[%s,%s]" % (L, "standalone" if standalone else "inner"), f.where(), "lilypond.from_Note(%s.., octave)" % L, why)
+            ctx.check(ok, R, "from_Note[%s,%s,%s]" % (L, klabel, "standalone" if standalone else "inner"), f.where(), "lilypond.from_Note(%s<%s>, octave)" % (L, klabel), why)
     # octaves ignored on request
     note = AObj(nci, {"name": "F#", "octave": 6}, name="note")
     paths = run_method(repo, f, [note, False, False])
@@ -539,8 +573,54 @@ def rule_xml_score(ctx):
         elif names != ["Voice 0", "Voice 1", "Voice 2", "Empty A", "Empty B", "Voice 0"]:
             ok, why = False, "part names %s" % names
     ctx.check(ok, R, "score.equal-tracks", f.where(), "_composition2musicxml(<tracks that compare equal>)", why)
-    # public entry points build a composition around their argument
-    for fname in ("from_Bar", "from_Track", "from_Composition"):
+    # public entry points: the composition handed to the exporter holds the argument, whole and once
+    noteci, nci = repo.mod(NOTE).cls("Note"), repo.mod(NC).cls("NoteContainer")
+
+    def held(comp):
+        tracks = comp.attrs.get("tracks") if isinstance(comp, AObj) else None
+        if not isinstance(tracks, list):
+            return None
+        out = []
+        for t in tracks:
+            bars = t.attrs.get("bars") if isinstance(t, AObj) else None
+            if not isinstance(bars, list):
+                return None
+            out.append(bars)
+        return out
+    for fname in ("from_Note", "from_Bar", "from_Track", "from_Composition"):
         fi = repo.mod(MX).func(fname)
-        called = {c.func.id for c in ast.walk(fi.node) if isinstance(c, ast.Call) and isinstance(c.func, ast.Name)}
-        ctx.check("_composition2musicxml" in called, R, fname, fi.where(), "musicxml.%s" % fname, "%s no longer goes through _composition2musicxml" % fname)
+        ctx.touch(fi)
+        cap = []
+
+        def summ(it, a, k, n, cap=cap):
+            cap.append(a[0])
+            return Token("score")
+        note = AObj(noteci, {"name": "F#", "octave": 5, "velocity": 64, "channel": 1}, name="n")
+        bar = make_xml_bar(repo, [(["D"], "quarter")], concrete_beats=True)
+        track = AObj(trci, {"bars": [bar], "name": "T", "instrument": None}, name="t")
+        comp = AObj(compci, {"tracks": [track], "selected_tracks": [0], "title": "t", "author": "a"}, name="comp")
+        arg = {"from_Note": note, "from_Bar": bar, "from_Track": track, "from_Composition": comp}[fname]
+
+        def mk3(ch, summ=summ):
+            return Interp(repo, ch, summaries={MX + "._composition2musicxml": summ}, max_depth=40)
+        try:
+            p = explore(mk3, lambda it, fi=fi, arg=arg: it.call_function(fi, [arg], {}))
+        except CannotDecide as e:
+            raise AnalysisError("musicxml.%s: %s" % (fname, e))
+        ok, why = len(p) == 1 and p[0].kind == "return" and len(cap) >= 1, "outcome %s; the exporter was called %d times" % ([(x.kind, short(repr(x.value), 60)) for x in p], len(cap))
+        if ok:
+            got = held(cap[-1])
+            if got is None or len(got) != 1:
+                ok, why = False, "the exported composition has %s tracks, expected the one holding the argument" % (None if got is None else len(got))
+            elif fname == "from_Composition":
+                ok, why = cap[-1] is comp, "the exported composition is not the argument"
+            elif fname == "from_Track":
+                ok, why = cap[-1].attrs["tracks"][0] is track, "the exported track is not the argument"
+            elif fname == "from_Bar":
+                ok, why = len(got[0]) == 1 and got[0][0] is bar, "the exported track holds bars %s, expected the argument alone" % (got[0],)
+            else:
+                entries = [e for b_ in got[0] for e in (b_.attrs.get("bar") or [])] if all(isinstance(b_, AObj) for b_ in got[0]) else []
+                notes = [x for e in entries for x in ((e[2].attrs.get("notes") or []) if isinstance(e[2], AObj) else [])]
+                ok = len(entries) == 1 and len(notes) == 1 and (notes[0] is note or (notes[0].attrs.get("name"), notes[0].attrs.get("octave")) == ("F#", 5))
+                why = "the exported composition holds %d entries with notes %s, expected one entry holding F#-5" % (len(entries), [(x.attrs.get("name"), x.attrs.get("octave")) for x in notes])
+        ctx.check(ok, R, fname, fi.where(), "musicxml.%s(<argument>)" % fname, why)
